@@ -210,12 +210,20 @@ def hash_rows(mp, rows, with_next=True):
     return acc
 
 
+def ctime(ns):
+    """times near T0 as an offset from the constant T of the scratch file (19-digit literals are slow to read)"""
+    d = ns - T0
+    if ns != 0 and abs(d) < 10 ** 15:
+        return "(T+%d)" % d if d >= 0 else "(T-%d)" % -d
+    return Q.cZ(ns)
+
+
 def coq_msg(mp, r):
     t = row_tuple(mp, r)
     lease = "None" if t[11] == 0 else "(Some %s)" % Q.cN(t[11] - 1)
     return "(mkMsg %s %s %s %s %s %s %s %s %s %s %s %s %s)" % (
-        Q.cN(t[0]), Q.cN(t[1]), Q.cN(t[2]), STC.get(r["state"], "Queued"), Q.cZ(t[4]), Q.cZ(t[5]), Q.cZ(t[6]),
-        Q.cN(t[7]), Q.cN(t[8]), Q.cN(t[9]), Q.cN(t[10]), lease, Q.cZ(t[12]))
+        Q.cN(t[0]), Q.cN(t[1]), Q.cN(t[2]), STC.get(r["state"], "Queued"), ctime(t[4]), Q.cZ(t[5]), ctime(t[6]),
+        Q.cN(t[7]), Q.cN(t[8]), Q.cN(t[9]), Q.cN(t[10]), lease, ctime(t[12]))
 
 
 # ---------------------------------------------------------------------------
@@ -471,7 +479,7 @@ def coq_before(f):
     if "before_raw" in f:
         return "TAbsent" if f["before_raw"].strip() == "" else "TBad"
     if "before_ns" in f:
-        return "(TOk %s)" % Q.cZ(f["before_ns"])
+        return "(TOk %s)" % ctime(f["before_ns"])
     return "TAbsent"
 
 
@@ -1000,6 +1008,7 @@ From HK Require Import Model.Queue Model.QueueHash Model.Headers Model.Publish M
 Import ListNotations.
 Open Scope Z_scope.
 Definition nrange (a : N) (n : nat) : list N := map (fun k => (a + N.of_nat k)%N) (seq 0 n).
+Definition T : Z := 1700000000000000000.
 """
 
 
@@ -1010,7 +1019,7 @@ def coq_group(g, out, mp):
     terms = []
     for k, rq in enumerate(g["requests"]):
         auth, post, reason, actor, reqid = rq["hreq"]
-        terms.append("AHttp x %s %s %s %s" % (Q.cZ(g["now"] + (k + 1) * 1000000), rq["ep"], coq_hreq(auth, post, reason, actor, reqid), rq["hbody"]))
+        terms.append("AHttp x %s %s %s %s" % (ctime(g["now"] + (k + 1) * 1000000), rq["ep"], coq_hreq(auth, post, reason, actor, reqid), rq["hbody"]))
     if g.get("mcp"):
         cfg = "(Some x)" if g["mcp"]["use_config"] else "None"
         lines.append("Definition me : menv := mkMEnv true %s %s." % (cbytes(PRINCIPAL), cfg))
@@ -1044,11 +1053,26 @@ def diff_rows(mp, before, after, with_next):
 
 
 def split_model_row(mo):
-    """model output of one request -> (obs6, sorted changed rows) or None"""
-    if len(mo) < 7 or len(mo) != 7 + 13 * mo[6]:
+    """model output of one request -> (obs6, sorted changed rows | ("sums", n, column sums)) or None"""
+    if len(mo) < 7:
+        return None
+    if mo[6] < 0:
+        return (mo[:6], ("sums", -mo[6], mo[7:])) if len(mo) == 7 + 14 else None
+    if len(mo) != 7 + 13 * mo[6]:
         return None
     rows = [mo[7 + 13 * j: 20 + 13 * j] for j in range(mo[6])]
     return mo[:6], sorted(rows)
+
+
+def summarise_rows(rows):
+    """what Model/ManageGlue.v diff_obs prints for more than 64 changed rows"""
+    if len(rows) <= 64:
+        return rows
+    sums = [0] * 14
+    for r in rows:
+        for j, v in enumerate(list(r) + [r[0] * r[3]]):
+            sums[j] += v
+    return ("sums", len(rows), sums)
 
 
 def observed_obs(rq, resp):
@@ -1064,8 +1088,65 @@ def observed_obs(rq, resp):
     return [200, 0, 0, f.get("matched", -1), f.get(IDS_FIELD[rq["verb"]], 0), 1 if resp["preview_only"] else 0]
 
 
+def big_group(rng, backend):
+    """more than 1000 candidates on one route, so that "default 100" and "max 1000" decide the selection"""
+    text, intent = make_config(CONFIGS[0])
+    recvs = [T0 - 20 * SEC + k * SEC for k in range(4)]
+    pop = []
+    n_dead = 1010
+    for i in range(1, n_dead + 41):
+        want = "dead" if i <= n_dead else rng.choice(["queued", "canceled", "delivered", "leased"])
+        # received_at falls with the id in tie groups of 8 (keeps the model's insertion sort cheap; ties sit on every limit boundary)
+        pop.append(dict(id="m%04d" % i, route="/a" if i <= n_dead else rng.choice(intent["routes"]), target="pull",
+                        recv=T0 - 20 * SEC - (i // 8) * 1000, want=want))
+    first = [m for m in pop if m["want"] in ("dead", "delivered", "leased")]
+    second = [m for m in pop if m["want"] in ("queued", "canceled")]
+    steps = [dict(op="enqueue", id=m["id"], route=m["route"], target=m["target"], recv=m["recv"]) for m in first]
+    steps.append(dict(op="dequeue_all", ttl=3600 * SEC))
+    for m in first:
+        how = {"leased": "keep", "dead": "dead", "delivered": "ack"}[m["want"]]
+        if how != "keep":
+            steps.append(dict(op="finish", id=m["id"], how=how, reason="max_retries"))
+    steps += [dict(op="enqueue", id=m["id"], route=m["route"], target=m["target"], recv=m["recv"]) for m in second]
+    steps.append(dict(op="cancel", ids=[m["id"] for m in pop if m["want"] == "canceled"]))
+    reqs = []
+
+    def freq(verb, fields, tag):
+        refuse, crit = filter_facts(fields, verb, "http")
+        h, reason, actor, reqid = audit_headers(rng, intent)
+        reqs.append(dict(transport="http", kind="filter", verb=verb, method="POST", path="/messages/%s_by_filter" % verb, headers=h,
+                         body=json.dumps(filter_wire(fields)), ep="(EpFilter %s)" % FKIND[verb], hbody="(BFilter (FBOk %s))" % coq_fbody(fields),
+                         tag=tag, expect=None, spec=dict(crit=crit, fields=fields), hreq=(True, True, reason, actor, reqid)))
+
+    freq("cancel", dict(route="/a", limit=5000, preview_only=True), "big-limit-over-preview")
+    freq("requeue", dict(route="/a", limit=0, preview_only=True), "big-limit-0-preview")
+    freq("cancel", dict(route="/a"), "big-limit-absent")                       # 100 of the dead become canceled
+    freq("requeue", dict(route="/a", limit=1001), "big-limit-over")            # 1000 of the 1010 dead+canceled become queued
+    g = dict(config=text, backend=backend, now=T0, setup=steps, intent=intent, pop=pop, requests=reqs)
+    if backend == "sqlite":
+        calls = []
+
+        def mcall(verb, fields, tag):
+            refuse, crit = filter_facts(fields, verb, "mcp")
+            args = dict(reason="verif")
+            args.update(filter_wire(fields))
+            lterm, _ = mcp_limit_term(args)
+            term = "(MtFilter %s (mkMF false true %s %s LBlank LBlank RBlank %s TAbsent %s %s))" % (
+                FKIND[verb], coq_maudit(args), coq_rroute(fields.get("route", "")), coq_rstate(fields.get("state", "")), lterm,
+                C.coq_bool(bool(fields.get("preview_only", False))))
+            calls.append(dict(transport="mcp", kind="filter", verb=verb, tool="messages_%s_by_filter" % verb, args=args, term=term, tag=tag,
+                              expect="refuse" if refuse else None, spec=dict(crit=crit, fields=fields)))
+
+        mcall("cancel", dict(route="/a", limit=1000, preview_only=True), "big-limit-1000-preview")   # 1000 queued + leftovers
+        mcall("cancel", dict(route="/a", limit=1001), "limit-out-of-range")
+        mcall("cancel", dict(route="/a", state="queued"), "big-limit-absent")                       # 100 of the 1000 queued
+        g["mcp_calls"] = calls
+        g["mcp"] = dict(use_config=True, principal=PRINCIPAL, role="operate", mutations=True)
+    return g
+
+
 def make_groups(rng, tier):
-    groups = []
+    groups = [big_group(rng, "memory"), big_group(rng, "sqlite")]
     order = [0, 1, 2, 3, 4, 5, 6, 7] if tier == "quick" else list(range(len(CONFIGS))) * 4
     for gi, ci in enumerate(order):
         text, intent = make_config(CONFIGS[ci])
@@ -1183,7 +1264,7 @@ def run(ctx, info, rng, *_):
             # (b) the model
             if not diverged:
                 obs = observed_obs(rq, resp)
-                drows = diff_rows(mp, before, after, http)
+                drows = summarise_rows(diff_rows(mp, before, after, http))
                 if obs != mo[0] or drows != mo[1]:
                     stats["model_mismatches"] += 1
                     diverged = True
@@ -1211,7 +1292,7 @@ def run(ctx, info, rng, *_):
                 if not r["same"]:
                     http_last = r["after"]
             want = sorted("%s|%s|%s|%s" % (r["id"], r["route"], r["target"], r["state"]) for r in http_last)
-            if sorted(o.get("api_listing") or []) != want:
+            if len(want) <= 1000 and sorted(o.get("api_listing") or []) != want:
                 C.report(ctx, "C14admin:listing", "GET /messages after the requests differs from the stored rows",
                          {"kind": "request", "observed": sorted(o.get("api_listing") or [])[:20], "expected": want[:20], "config": g["config"]})
     cov = {
@@ -1239,7 +1320,7 @@ def replay_obj(g, o, rq, resp, before, after, mo, cls):
             "class": cls, "observed": {"status": resp["status"], "code": resp["code"], "fields": resp["fields"], "preview_only": resp["preview_only"],
                                        "body": resp["body"], "rows_changed": [{"before": bb.get(i), "after": aa.get(i)} for i in ch[:8]],
                                        "n_rows_changed": len(ch)},
-            "expected": {"model_status_code_count_matched_changed_preview": mo[0], "model_rows_changed": mo[1][:8],
+            "expected": {"model_status_code_count_matched_changed_preview": mo[0], "model_rows_changed": mo[1][:8] if isinstance(mo[1], list) else mo[1],
                          "statement": "only the selected messages from allowed states change; refusals change nothing; counts = rows changed; preview = real"},
             "stored_before": before if len(before) <= 60 else before[:60],
             "how_to_replay": "./check C14 --replay <this file>  (re-runs the seeded request groups on the servers built from the current tree)"}
